@@ -66,6 +66,7 @@ def run_tlc(
             "-XX:+UseParallelGC",
             f"-Xmx{heap}",
             "-Xss512m",
+            f"-Djava.io.tmpdir={scratch}",  # TLC's own temporary directories go away with the scratch directory
             f"-DTLA-Library={libs}",
             "-cp",
             f"{JAR}:{DEPS}",
